@@ -547,4 +547,137 @@ theorem backendCalls_noRestore : ∀ (ops : List HCall) (ctr : Nat), NoRestore o
   | nil => intros; simp [backendCalls, NoRestore]
   | cons c cs ih => intro ctr h; cases c <;> simp_all [backendCalls, NoRestore]
 
+/-! ### creations: at most one per lifetime -/
+
+/-- every write of the sequence stores a non-empty version (both backends do) -/
+def NonEmptyWrites : List HCall → Prop
+  | [] => True
+  | .write res _ :: cs => res.version ≠ "" ∧ NonEmptyWrites cs
+  | _ :: cs => NonEmptyWrites cs
+
+theorem nonEmptyWrites_cons {c : HCall} {cs : List HCall} (h : NonEmptyWrites (c :: cs)) :
+    NonEmptyWrites cs ∧ (∀ res vsn, c = .write res vsn → res.version ≠ "") := by
+  cases c <;> simp_all [NonEmptyWrites]
+
+/-- while `k` is present (with a non-empty version) nothing presenting the empty version commits on it -/
+theorem no_empty_commit_while_present (st : Rows) (c : HCall) (k : Bytes) (a : Res)
+    (ha : lookup k st = some a) (hne : a.version ≠ "") :
+    committedPresenting k "" (c, (specStep st c).2.1, (specStep st c).2.2) = false := by
+  cases c with
+  | restore rs => simp [committedPresenting, presents]
+  | read id => simp [committedPresenting, presents]
+  | list q => simp [committedPresenting, presents]
+  | listOwner id => simp [committedPresenting, presents]
+  | delete id vsn =>
+    rw [specStep_delete]
+    simp only [committedPresenting, presents]
+    by_cases hk : idKey id = k
+    · subst hk
+      by_cases hv : vsn = ""
+      · subst hv
+        simp only [ha]
+        by_cases h1 : id.uid ≠ a.id.uid
+        · simp [h1]
+        · have : ("" : String) ≠ a.version := fun e => hne e.symm
+          simp [h1, this]
+      · simp [hv]
+    · simp [hk]
+  | write res vsn =>
+    rw [specStep_write]
+    simp only [committedPresenting, presents]
+    by_cases hk : idKey res.id = k
+    · subst hk
+      by_cases hv : vsn = ""
+      · subst hv
+        simp only [ha]
+        by_cases h1 : a.id.uid ≠ res.id.uid
+        · simp [h1]
+        · simp [h1, hne]
+      · simp [hv]
+    · simp [hk]
+
+theorem no_create_while_present (k : Bytes) :
+    ∀ (ops : List HCall) (st : Rows) (used : List String) (a : Res), NoRestore ops → NonEmptyWrites ops →
+      (∀ r ∈ st, r.version ∈ used) → "" ∉ used → lookup k st = some a →
+      (trace st ops).all (fun t => !deletesKey k t) = true →
+      (trace st ops).filter (committedPresenting k "") = [] := by
+  intro ops
+  induction ops with
+  | nil => intros; simp [trace]
+  | cons c cs ih =>
+    intro st used a hnr hnw hP hu ha hall
+    obtain ⟨hnr', hc⟩ := noRestore_cons hnr
+    obtain ⟨hnw', hw⟩ := nonEmptyWrites_cons hnw
+    simp only [trace, List.all_cons, Bool.and_eq_true, Bool.not_eq_true'] at hall
+    have hav : a.version ≠ "" := fun e => hu (e ▸ hP a (lookup_some ha).1)
+    have hhead := no_empty_commit_while_present st c k a ha hav
+    obtain ⟨b, hb⟩ := present_step st c hc k a ha hall.1
+    have hP' := versions_used_step st c used hc hP
+    have hu' : "" ∉ usedAfter used c := by
+      cases c <;> simp_all [usedAfter]
+    simp only [trace, List.filter_cons, hhead]
+    exact ih _ _ b hnr' hnw' hP' hu' hb hall.2
+
+/-- a committed operation presenting the empty version on `k` is a creation: `k` is present afterwards -/
+theorem empty_commit_creates (st : Rows) (c : HCall) (k : Bytes)
+    (h : committedPresenting k "" (c, (specStep st c).2.1, (specStep st c).2.2) = true)
+    (hst : ∀ r ∈ st, r.version ≠ "") : ∃ b, lookup k (specStep st c).1 = some b := by
+  cases c with
+  | restore rs => simp [committedPresenting, presents] at h
+  | read id => simp [committedPresenting, presents] at h
+  | list q => simp [committedPresenting, presents] at h
+  | listOwner id => simp [committedPresenting, presents] at h
+  | delete id vsn =>
+    rw [specStep_delete] at h
+    simp only [committedPresenting, presents, Bool.and_eq_true, decide_eq_true_eq] at h
+    obtain ⟨hsome, hk, hv⟩ := h
+    subst hk hv
+    cases hl : lookup (idKey id) st with
+    | none => simp [hl] at hsome
+    | some ex =>
+      have := hst ex (lookup_some hl).1
+      simp only [hl] at hsome
+      by_cases h1 : id.uid ≠ ex.id.uid
+      · simp [h1] at hsome
+      · have : ("" : String) ≠ ex.version := fun e => this e.symm
+        simp [h1, this] at hsome
+  | write res vsn =>
+    rw [specStep_write] at h ⊢
+    simp only [committedPresenting, presents, Bool.and_eq_true, decide_eq_true_eq] at h
+    obtain ⟨hsome, hk, hv⟩ := h
+    subst hk hv
+    cases hl : lookup (idKey res.id) st with
+    | none => simp [lookup_upsert]
+    | some ex =>
+      have := hst ex (lookup_some hl).1
+      simp only [hl] at hsome
+      by_cases h1 : ex.id.uid ≠ res.id.uid
+      · simp [h1] at hsome
+      · simp [h1, this] at hsome
+
+theorem creates_at_most_one_aux (k : Bytes) :
+    ∀ (ops : List HCall) (st : Rows) (used : List String), NoRestore ops → NonEmptyWrites ops →
+      (∀ r ∈ st, r.version ∈ used) → "" ∉ used →
+      (trace st ops).all (fun t => !deletesKey k t) = true →
+      ((trace st ops).filter (committedPresenting k "")).length ≤ 1 := by
+  intro ops
+  induction ops with
+  | nil => intros; simp [trace]
+  | cons c cs ih =>
+    intro st used hnr hnw hP hu hall
+    obtain ⟨hnr', hc⟩ := noRestore_cons hnr
+    obtain ⟨hnw', hw⟩ := nonEmptyWrites_cons hnw
+    have hall' := hall
+    simp only [trace, List.all_cons, Bool.and_eq_true, Bool.not_eq_true'] at hall'
+    have hP' := versions_used_step st c used hc hP
+    have hu' : "" ∉ usedAfter used c := by
+      cases c <;> simp_all [usedAfter]
+    simp only [trace, List.filter_cons]
+    split
+    · next hhead =>
+      obtain ⟨b, hb⟩ := empty_commit_creates st c k hhead (fun r hr e => hu (e ▸ hP r hr))
+      rw [no_create_while_present k cs _ _ b hnr' hnw' hP' hu' hb hall'.2]
+      simp
+    · exact ih _ _ hnr' hnw' hP' hu' hall'.2
+
 end CV.Res
